@@ -1272,6 +1272,10 @@ func (m *Model) eval(e *N, sc *Scope) (interface{}, ctl) {
 			return nil, c
 		}
 		return !m.truthy(a), ok0
+	case "recv":
+		// the channel holds exactly the operand's value
+		m.feat("receive_expression")
+		return m.eval(e.Ns[0], sc)
 	case "neg", "negb":
 		a, c := m.eval(e.Ns[0], sc)
 		if c.s != sNone {
